@@ -716,6 +716,16 @@ func (e *ruleEnv) instantiate(c map[string]interface{}) []*ruleText {
 		rt.ast.Items = append(rt.ast.Items, it)
 		rt.ast.Syscalls = astSyscalls{All: false, Nums: []int{num("n"), num("m")}, Names: []astName{}}
 		rt.args = append(rt.args, "-S", fmt.Sprintf("%d,%d", num("n"), num("m")))
+		// the same filter with syscalls given by name: the architecture the rule names says which table the
+		// names are looked up in, whatever the operator
+		rn := &ruleText{ast: newAst(), c07: true, cls: "archname:" + str("arch") + ":" + str("op")}
+		rn.ast.List, rn.ast.Action = "exit", rt.ast.Action
+		rn.args = []string{"-a", rn.ast.Action + ",exit", "-F", arg}
+		rn.ast.Items = append(rn.ast.Items, it)
+		if a := it.Name; a == "i386" || a == "x86_64" {
+			e.syscallShape(rn, "names64", a)
+			return []*ruleText{rt, rn}
+		}
 		return []*ruleText{rt}
 	case "sysbig":
 		rt := &ruleText{ast: newAst(), c07: false, cls: "sysbig"}
